@@ -16,10 +16,11 @@ SPECS = ["spec_C06", "spec_C07", "spec_C20"]
 
 
 def cq_case(case, obs):
-    return ("{| x_body := %s; x_texts := [%s]; x_cond_params := [%s]; x_kwargs := %s; x_closure := %s; x_globals := %s |}"
+    return ("{| x_body := %s; x_texts := [%s]; x_cond_params := [%s]; x_kwargs := %s; x_defaults := %s; x_closure := %s; "
+            "x_globals := %s |}"
             % (X.cq(case["tree"]), "; ".join(X.cq_str(t) for t in obs["texts"]),
                "; ".join(X.cq_str(p) for p in case["cond_params"]), X.cq_env(G.full_kwargs(case)),
-               X.cq_env(case["closure"]), X.cq_env(case["globals"])))
+               X.cq_env(case.get("cond_defaults", [])), X.cq_env(case["closure"]), X.cq_env(case["globals"])))
 
 
 def cq_ilog(l):
